@@ -47,4 +47,37 @@ pub fn piv_small(s: &mut Src) -> R {
     Ok(())
 }
 
-crate::harness_table!(PIV: piv_small);
+
+// C11: the ASSUMED contract of yui::algo::top_sort (used by PivotFinder::result): on a graph given as (vertex, successors) it returns
+// Ok(order) exactly when the graph is acyclic (and every successor is a key); then the order lists every vertex once with each vertex before
+// its successors.  Graphs on up to 6 vertices, vertex names scattered, duplicate edges allowed.  Sampled, bounded.
+pub fn piv_top_sort_small(s: &mut Src) -> R {
+    use yui::algo::top_sort;
+    let n = s.small(0, 6) as usize;
+    let mut adj = vec![vec![false; 6]; 6];
+    let mut dup = vec![vec![false; 6]; 6];
+    for i in 0..6 { for j in 0..6 { let x = s.small(0, 9); adj[i][j] = x < 3; dup[i][j] = x == 0; } }
+    let shift = s.small(0, 3) as usize;
+    reach!();
+    let name = |i: usize| 10 + 7 * ((i + shift) % 6);           // scattered, distinct names
+    let tree: Vec<(usize, Vec<usize>)> = (0..n).map(|i| {
+        let mut l = vec![];
+        for j in 0..n { if adj[i][j] { l.push(name(j)); if dup[i][j] { l.push(name(j)); } } }
+        (name(i), l)
+    }).collect();
+    // acyclic <=> repeatedly removing vertices without incoming edges removes everything
+    let mut alive = vec![true; n]; let mut left = n;
+    loop { let mut progress = false; for j in 0..n { if alive[j] && !(0..n).any(|i| alive[i] && adj[i][j]) { alive[j] = false; left -= 1; progress = true; } } if !progress { break; } }
+    let acyclic = left == 0;
+    let res = top_sort(tree.clone());
+    ob!(res.is_ok() == acyclic, "top_sort::Ok<=>acyclic");
+    if let Ok(order) = res {
+        ob!(order.len() == n, "top_sort::every-vertex-once(len)");
+        for i in 0..n { ob!(order.iter().filter(|&&x| x == name(i)).count() == 1, "top_sort::every-vertex-once"); }
+        let pos = |x: usize| order.iter().position(|&y| y == x).unwrap();
+        for i in 0..n { for j in 0..n { if adj[i][j] { ob!(pos(name(i)) < pos(name(j)), "top_sort::vertex-before-its-successors"); } } }
+    }
+    Ok(())
+}
+
+crate::harness_table!(PIV: piv_small, piv_top_sort_small);
